@@ -143,6 +143,41 @@ func scenarioStream(c *harness.Ctx) {
 		}
 		cfgs[i] = simnet.DrawCfgFor(tp, total)
 	}
+	// Neighbours in trouble: other connections of the same process whose peers
+	// die in the middle of a frame or send a frame the receiver must refuse. Their
+	// receivers fail (that is the point); the pairs, which share the package's
+	// pools with them, must not notice.
+	type doomedConn struct {
+		th    int
+		bytes []byte
+	}
+	var doomed []doomedConn
+	if tp.Bool(1, 3) {
+		pDoomed.Hit()
+		for k := 1 + tp.Choose(3); k > 0; k-- {
+			th := []int{-1, 0, 1, 64, 256}[tp.Choose(5)]
+			id := gen.PacketID(tp)
+			data := gen.Fill(tp, tp.Choose(3000), 9, k)
+			fr := frame.Build(id, data, th >= 0, th >= 0 && len(data) >= th && tp.Bool(2, 3))
+			switch tp.Choose(3) {
+			case 0, 1:
+				// the peer dies inside the frame (after its length and at least one more byte, when there is one)
+				if len(fr) > 2 {
+					fr = fr[:2+tp.Choose(len(fr)-2)]
+				}
+			default:
+				// a complete frame with a declared size the receiver must refuse
+				if th >= 0 {
+					body := append(frame.PutVarint(nil, int32(1<<21+1+tp.Choose(1000))), fr[1:]...)
+					fr = append(frame.PutVarint(nil, int32(len(body))), body...)
+				} else {
+					fr = frame.PutVarint(nil, -int32(1+tp.Choose(100)))
+				}
+			}
+			doomed = append(doomed, doomedConn{th, fr})
+		}
+	}
+	c.Config["doomed_neighbours"] = len(doomed)
 	c.Config["pairs"] = len(pairs)
 	for i, p := range pairs {
 		lens := make([]int, len(p.pkts))
@@ -153,6 +188,24 @@ func scenarioStream(c *harness.Ctx) {
 			"seg_mode": cfgs[i].SegMode, "read_mode": cfgs[i].ReadMode, "window": cfgs[i].Window}
 	}
 	out, w := c.World(func(w *kernel.World) {
+		for k, d := range doomed {
+			d := d
+			dl := simnet.Pipe(w, fmt.Sprintf("doomed%d", k), simnet.DrawCfgFor(tp, len(d.bytes)), coarse())
+			w.Go(fmt.Sprintf("dying-peer%d", k), func() {
+				dl.A.Write(d.bytes)
+				dl.A.Close()
+			})
+			w.Go(fmt.Sprintf("doomed-recv%d", k), func() {
+				var q pk.Packet
+				if k%2 == 0 {
+					conn := mcnet.WrapConn(dl.B)
+					conn.SetThreshold(d.th)
+					_ = conn.ReadPacket(&q) // whatever it returns is not this scenario's business
+				} else {
+					_ = q.UnPack(dl.B, d.th)
+				}
+			})
+		}
 		for i, p := range pairs {
 			p := p
 			p.link = simnet.Pipe(w, p.name, cfgs[i], coarse())
@@ -499,3 +552,5 @@ func (nullStream) XORKeyStream(dst, src []byte) { copy(dst, src) }
 var pNullCipher = simrt.NewProbe("stream.identity.cipher.installed.after.SetThreshold")
 
 var pForgedShortDL = simrt.NewProbe("forged.data.length.shorter.than.the.id.in.the.zlib.stream")
+
+var pDoomed = simrt.NewProbe("stream.neighbour.connections.whose.frames.are.truncated.or.refused")
